@@ -253,7 +253,34 @@ class SimHandle:
         return self.mode[0] in 'wax' or '+' in self.mode
 
     def seekable(self):
-        return False
+        return self.mode[0] == 'r'
+
+    def tell(self):
+        if self.closed:
+            raise ValueError('I/O operation on closed file.')
+        if self.mode[0] != 'r':
+            raise io.UnsupportedOperation('tell on a write handle is not simulated')
+        return self._pos
+
+    def seek(self, pos, whence=0):
+        # read handles only (a library that peeks at the head of the file and rewinds, seeded change C17-m7);
+        # text positions are character offsets, which is what seek(0) / seek(tell()) need
+        if self.closed:
+            raise ValueError('I/O operation on closed file.')
+        if self.mode[0] != 'r':
+            raise io.UnsupportedOperation('seek on a write handle is not simulated')
+        if not self.binary:
+            self._ensure_text()
+        n = len(self._rbuf)
+        if whence == 0:
+            self._pos = max(0, min(pos, n))
+        elif whence == 1:
+            self._pos = max(0, min(self._pos + pos, n))
+        elif whence == 2:
+            self._pos = max(0, min(n + pos, n))
+        else:
+            raise ValueError('invalid whence')
+        return self._pos
 
     def flush(self):
         return None
